@@ -523,9 +523,11 @@ func helperClosureBound(p *core.Program, fn *core.FuncRef) []boundFunc {
 	helperInline(p, "", nil)
 	idx := helperDecls[p]
 	out := []boundFunc{{fn, map[string]string{}, nil}}
-	seen := map[*types.Func]bool{}
+	// a helper is entered once per distinct binding of its parameters (f(a); f(b) are two entries)
+	seen := map[string]bool{}
+	onStack := map[*types.Func]bool{}
 	if fn.Obj != nil {
-		seen[fn.Obj] = true
+		onStack[fn.Obj] = true
 	}
 	for i := 0; i < len(out) && i < 40; i++ {
 		cur := out[i]
@@ -536,14 +538,13 @@ func helperClosureBound(p *core.Program, fn *core.FuncRef) []boundFunc {
 				return true
 			}
 			f, ok := core.Callee(info, call).(*types.Func)
-			if !ok || f.Pkg() == nil || f.Pkg().Path() != fn.Pkg.PkgPath || f.Exported() || seen[f] {
+			if !ok || f.Pkg() == nil || f.Pkg().Path() != fn.Pkg.PkgPath || f.Exported() || onStack[f] || f == cur.fn.Obj {
 				return true
 			}
 			fr := idx[f]
 			if fr == nil {
 				return true
 			}
-			seen[f] = true
 			conds := append([]string(nil), cur.conds...)
 			for k, anc := range stack {
 				if is, ok := anc.(*ast.IfStmt); ok && k+1 < len(stack) && stack[k+1] == ast.Node(is.Body) {
@@ -568,6 +569,11 @@ func helperClosureBound(p *core.Program, fn *core.FuncRef) []boundFunc {
 					b[fr.Decl.Recv.List[0].Names[0].Name] = resolveText(core.ExprStr(sel.X), cur.binds)
 				}
 			}
+			sig := f.FullName() + fmt.Sprint(b)
+			if seen[sig] {
+				return true
+			}
+			seen[sig] = true
 			out = append(out, boundFunc{fr, b, conds})
 			return true
 		})
